@@ -66,6 +66,8 @@ package bttest
 //@   ensures result1 || len(r.Families) == old(len(r.Families))
 //@   ensures old(rowDesc(r)) ==> rowDesc(r)
 //@   ensures famSep(r.Families)
+// frame (for callers that hold other rows): families that are not in r keep their column list, column arrays that do
+// not belong to a family of r keep their elements
 //@   loop 1 invariant 0 <= wIdx <= idx1 + 1
 //@   loop 1 invariant old(rowDesc(r)) ==> forall i :: 0 <= i < wIdx ==> colsDesc(r.Families[i].Columns)
 //@   loop 1 invariant old(rowDesc(r)) ==> forall k :: idx1 < k < len(r.Families) ==> colsDesc(r.Families[k].Columns)
@@ -199,6 +201,10 @@ package bttest
 //@ spec rowAllEmpty(r *btpb.Row) bool = forall i, j :: 0 <= i < len(r.Families) && 0 <= j < len(r.Families[i].Columns) ==> len(r.Families[i].Columns[j].Cells) == 0
 // column c is not one of the columns of the tree below row r
 //@ spec outside(c *btpb.Column, r *btpb.Row) bool = forall i, j :: 0 <= i < len(r.Families) && 0 <= j < len(r.Families[i].Columns) ==> c != r.Families[i].Columns[j]
+// the cell list of a pre-existing column that did not belong to r at entry is untouched. Stated (below) for the columns
+// s[j] of every column slice s instead of for every pointer c: a pointer-quantified `!fresh(c)` makes z3 choose the
+// trigger (obj c), which matches every location term and makes all queries of the function diverge.
+//@ spec colKept(c *btpb.Column, r *btpb.Row) bool = !fresh(c) && old(outside(c, r)) ==> c.Cells == old(c.Cells)
 // Row.Families of every other pre-existing row is untouched
 //@ spec otherRowsKept(r *btpb.Row) bool = forall p *btpb.Row :: !fresh(p) && p != r ==> p.Families == old(p.Families)
 // separation of a filtered copy a from the row b that Interleave rebuilds: families, column arrays, columns
@@ -220,13 +226,13 @@ package bttest
 //@   ensures f == nil ==> result0 && result1 == nil
 // --- frame: heap("F:bigtablepb.Column.Cells") is declared as a whole (no per-tree designator); what really changes is
 // only the cell lists of columns that belonged to r at entry (or are new). Callers that filter a copy keep the original.
-//@   ensures forall c *btpb.Column :: !fresh(c) && old(outside(c, r)) ==> c.Cells == old(c.Cells)
+//@   ensures forall s []*btpb.Column, j :: 0 <= j < len(s) ==> colKept(s[j], r)
 // the family list of r is either untouched or (Interleave, directly or nested) rebuilt from newly allocated objects
 //@   ensures r.Families == old(r.Families) || treeFresh(r)
 //@   ensures old(famSep(r.Families)) ==> famSep(r.Families)
 // --- cuts: restate the row facts after every recursive call / copy
 //@   callsite filterRow ensures rowOK(r)
-//@   callsite filterRow ensures forall c *btpb.Column :: !fresh(c) && old(outside(c, r)) ==> c.Cells == old(c.Cells)
+//@   callsite filterRow ensures forall s []*btpb.Column, j :: 0 <= j < len(s) ==> colKept(s[j], r)
 // --- validation: rejected with InvalidArgument, never ignored, never fatal
 //@   ensures f != nil && typeis(f.Filter, *btpb.RowFilter_BlockAllFilter) ==> !result0 && ((result1 == nil) == as(f.Filter, *btpb.RowFilter_BlockAllFilter).BlockAllFilter)
 //@   ensures f != nil && typeis(f.Filter, *btpb.RowFilter_PassAllFilter) ==> ((result1 == nil) == as(f.Filter, *btpb.RowFilter_PassAllFilter).PassAllFilter) && (result1 == nil ==> result0)
@@ -263,7 +269,7 @@ package bttest
 //@   loop 1 invariant old(famSep(r.Families)) ==> famSep(r.Families)
 //@   loop 1 invariant otherRowsKept(r)
 //@   loop 1 invariant frameOld(heap("T:*bigtablepb.Family"), heap("F:bigtablepb.Family.Columns"), heap("T:*bigtablepb.Column"), heap("T:*bigtablepb.Cell"))
-//@   loop 1 invariant forall c *btpb.Column :: !fresh(c) && old(outside(c, r)) ==> c.Cells == old(c.Cells)
+//@   loop 1 invariant forall s []*btpb.Column, j :: 0 <= j < len(s) ==> colKept(s[j], r)
 // Interleave, phase 1: every branch works on its own deep copy; nothing that existed at entry changes
 //@   loop 2 invariant rowOK(r)
 //@   loop 2 invariant frameOld(heap("F:bigtablepb.Row.Families"), heap("T:*bigtablepb.Family"), heap("F:bigtablepb.Family.Columns"), heap("T:*bigtablepb.Column"), heap("F:bigtablepb.Column.Cells"), heap("T:*bigtablepb.Cell"))
@@ -348,11 +354,11 @@ package bttest
 //@   loop 13 invariant forall i, j :: 0 <= i < len(r.Families) && 0 <= j < len(r.Families[i].Columns) ==> len(r.Families[i].Columns[j].Cells) <= old(len(r.Families[i].Columns[j].Cells))
 //@   loop 14 invariant cellCount == 0 ==> forall i, j :: 0 <= i < len(r.Families) && 0 <= j < len(r.Families[i].Columns) && i <= idx14 ==> len(r.Families[i].Columns[j].Cells) == 0
 //@   loop 15 invariant cellCount == 0 ==> forall i, j :: 0 <= i < len(r.Families) && 0 <= j < len(r.Families[i].Columns) && (i <= idx14 || (i == idx14 + 1 && j <= idx15)) ==> len(r.Families[i].Columns[j].Cells) == 0
-//@   loop 8 invariant forall c *btpb.Column :: !fresh(c) && old(outside(c, r)) ==> c.Cells == old(c.Cells)
-//@   loop 9 invariant forall c *btpb.Column :: !fresh(c) && old(outside(c, r)) ==> c.Cells == old(c.Cells)
-//@   loop 10 invariant forall c *btpb.Column :: !fresh(c) && old(outside(c, r)) ==> c.Cells == old(c.Cells)
-//@   loop 11 invariant forall c *btpb.Column :: !fresh(c) && old(outside(c, r)) ==> c.Cells == old(c.Cells)
-//@   loop 12 invariant forall c *btpb.Column :: !fresh(c) && old(outside(c, r)) ==> c.Cells == old(c.Cells)
-//@   loop 13 invariant forall c *btpb.Column :: !fresh(c) && old(outside(c, r)) ==> c.Cells == old(c.Cells)
-//@   loop 14 invariant forall c *btpb.Column :: !fresh(c) && old(outside(c, r)) ==> c.Cells == old(c.Cells)
-//@   loop 15 invariant forall c *btpb.Column :: !fresh(c) && old(outside(c, r)) ==> c.Cells == old(c.Cells)
+//@   loop 8 invariant forall s []*btpb.Column, j :: 0 <= j < len(s) ==> colKept(s[j], r)
+//@   loop 9 invariant forall s []*btpb.Column, j :: 0 <= j < len(s) ==> colKept(s[j], r)
+//@   loop 10 invariant forall s []*btpb.Column, j :: 0 <= j < len(s) ==> colKept(s[j], r)
+//@   loop 11 invariant forall s []*btpb.Column, j :: 0 <= j < len(s) ==> colKept(s[j], r)
+//@   loop 12 invariant forall s []*btpb.Column, j :: 0 <= j < len(s) ==> colKept(s[j], r)
+//@   loop 13 invariant forall s []*btpb.Column, j :: 0 <= j < len(s) ==> colKept(s[j], r)
+//@   loop 14 invariant forall s []*btpb.Column, j :: 0 <= j < len(s) ==> colKept(s[j], r)
+//@   loop 15 invariant forall s []*btpb.Column, j :: 0 <= j < len(s) ==> colKept(s[j], r)
